@@ -250,6 +250,12 @@ type caseCtx struct {
 	byRole   [5]atomic.Int64
 	// window[role]: responses sent whose only defect is the RRSIG window
 	window [5]atomic.Int64
+	// parent-owned denial forgeries (denial.go): genuine proof records kept
+	// next to the forged ones / none kept; and, by rcode, how many of them
+	// were sent by a server that is authoritative for the parent zone too
+	pdMixed, pdReplaced    atomic.Int64
+	pdSharedNX, pdSharedND atomic.Int64
+	pdOtherNX, pdOtherND   atomic.Int64
 }
 
 func roleIdx(r string) int {
@@ -624,7 +630,9 @@ var kinds = []*tamperKind{
 	// wildcard-substitute: answer an existing name with the (validly signed)
 	// wildcard RRset and a proof for some other name.
 	{Name: "wildcard-substitute", ZoneRoles: []string{roleAnswer}, Breaks: true, Alters: true,
-		Needs: func(c *caseCtx, q QuerySpec) bool { return signedZone(c, q) && strings.HasPrefix(q.Name, "real.wild.") && q.Type == dns.TypeA },
+		Needs: func(c *caseCtx, q QuerySpec) bool {
+			return signedZone(c, q) && strings.HasPrefix(q.Name, "real.wild.") && q.Type == dns.TypeA
+		},
 		Apply: func(c *caseCtx, q, m *dns.Msg, role string, atParent bool) bool {
 			pq := q.Copy()
 			pq.Question[0].Name = "substitute.wild." + c.z.Apex()
